@@ -190,7 +190,34 @@ func (s *Sim) releaseOneGated() bool {
 	// one-runnable-goroutine regime), then the PRNG picks.
 	sort.SliceStable(s.gated, func(i, j int) bool { return s.gated[i].g < s.gated[j].g })
 	idx := -1
-	if n > 1 {
+	if s.cfg.Priority {
+		// priority scheduling (PCT, Burckhardt et al. 2010): every goroutine gets a random priority
+		// when the scheduler first sees it, the gated goroutine with the highest priority runs, and
+		// at a few random points the running goroutine drops below everybody else. A goroutine can
+		// be starved through a long chain of lock acquisitions of another one, which uniform random
+		// choice practically never does.
+		if s.prio == nil {
+			s.prio = map[uint64]int64{}
+		}
+		best := int64(-1 << 62)
+		for i, ge := range s.gated {
+			pr, ok := s.prio[ge.g]
+			if !ok {
+				pr = int64(s.sched.Uint64() >> 2)
+				s.prio[ge.g] = pr
+			}
+			if pr > best {
+				best, idx = pr, i
+			}
+		}
+		if n > 1 {
+			s.stats.SchedAlternates++
+		}
+		if s.sched.Chance(0.03) {
+			s.prioFloor--
+			s.prio[s.gated[idx].g] = s.prioFloor // change point: from now on it runs last
+		}
+	} else if n > 1 {
 		s.stats.SchedAlternates++
 		if s.cfg.Sticky > 0 && s.sched.Chance(s.cfg.Sticky) {
 			for i, ge := range s.gated {
